@@ -76,7 +76,7 @@ static void run() {
     deps::inject(0); polyseed_enable_features(7); lib::Registry::get(); model::Golden::get();
     { Case c; c.set("kind", "coldstart"); c.set("rounds", (uint64_t)a.n(6, 40)); set_current(c); std::string m = oracle(c); if (!m.empty() && enum_fail(c, m)) return; }
     seqgen::Weights wt{{0, 0, 10, 8, 8, 8, 8, 10, 4, 4, 2, 5, 1, 1}};
-    rc_run("c20-threads", a.n(25, 1500), 100, [&]() {
+    rc_run("c20-threads", a.n(25, 600), 100, [&]() {
         int n = *rc::gen::element(2, 4, 8, 16, 4, 8); int ym = *rc::gen::element(0, 1, 1, 2, 5); std::string all;
         for (int i = 0; i < n; i++) { auto seq = *seqgen::sequence(wt, *rc::gen::element(10, 25, 50)); if (i) all += ";"; all += ops::to_hex(seq); }
         Case c; c.set("n", (uint64_t)n); c.set("yield", (uint64_t)ym); c.set("scripts", all); c.set("libc_alloc", *in_range<unsigned>(0, 2)); set_current(c);
